@@ -14,10 +14,16 @@ import (
 	"verif/engine/interp"
 )
 
-const (
-	repoDir = "/repo"
-	rootMod = "github.com/jawher/mow.cli"
-)
+const rootMod = "github.com/jawher/mow.cli"
+
+// repoDir is /repo; mutation trials that must not disturb a sweep running on /repo point
+// VERIF_REPO at a scratch copy instead (never used by a registered command).
+var repoDir = func() string {
+	if d := os.Getenv("VERIF_REPO"); d != "" {
+		return d
+	}
+	return "/repo"
+}()
 
 // verifDir is /verif, or the snapshot a background run works from (VERIF_DIR).
 var verifDir = func() string {
